@@ -140,6 +140,18 @@ CHECKS["C04"] = {
     ],
 }
 
+CHECKS["C06"] = {
+    "engine": "simnet",
+    "level": "exploration",
+    "technique": "property-based testing (rapid) of PutValue/Provide/corrective puts over a simulated network; recipient-set and payload oracle over the simulation log, lookup result recomputed from validated lookup events",
+    "level_text": "Generated networks, recipient faults, host address sets and filters are run against the real PutValue, classic and optimistic Provide and completed SearchValue; the oracle compares the set of "
+                  "recipients and the payload of every write RPC in the simulation log with the lookup result and the filtered address set. Exploration: scenarios are sampled.",
+    "level_note": "The lookup result R is recomputed from lookup events (validated against the simulation in C01); address classes are recognised by construction; FullRT bulk writes are covered by C16.",
+    "parts": [
+        {"part": "writes", "pkg": ROOT, "test": "TestVerif_C06_Writes", "quick": 2500, "thorough": 40000},
+    ],
+}
+
 MANIFEST_HEAD = {
     "version": 1,
     "setup_cmd": "bin/check --setup",
